@@ -57,6 +57,9 @@ Proof.
   - (* ECall *) len_norm. rewrite H, H0. lia.
   - (* EBin *) len_norm. rewrite H, H0. lia.
   - (* EFun *) len_norm. rewrite H. lia.
+  - (* EStr *) len_norm. unfold numlen. lia.
+  - (* ETable *) len_norm. rewrite H. lia.
+  - (* EMeth *) len_norm. rewrite H, H0. fold (nlen m). lia.
   - (* ECons *) len_norm. rewrite H. destruct es; [reflexivity|]. len_norm. rewrite H0. lia.
   - (* SLocal *) len_norm. destruct es; [rewrite tlen_nil; lia|]. len_norm. rewrite H. lia.
   - (* SAssign *) len_norm. rewrite H, H0. lia.
@@ -69,6 +72,9 @@ Proof.
   - (* SIf *) len_norm. rewrite H, H0, H1. lia.
   - (* SFor *) len_norm. rewrite H, H0. fold (nlen x). lia.
   - (* SForIn *) len_norm. rewrite H, H0. lia.
+  - (* SLabel *) len_norm. fold (nlen l). lia.
+  - (* SGoto *) len_norm. fold (nlen l). lia.
+  - (* SLocalAttr *) len_norm. fold (nlen x). destruct cl; len_norm; (destruct es; [rewrite tlen_nil; lia|]); len_norm; rewrite H; lia.
   - (* ElElse *) len_norm. rewrite H. lia.
   - (* ElIf *) len_norm. rewrite H, H0, H1. lia.
   - (* BRet *) len_norm. destruct es; [rewrite tlen_nil; lia|]. len_norm. rewrite H. lia.
